@@ -475,6 +475,16 @@ class MinMaxAggregator:
             )
             return [rule]
 
+        # the chain predicate is reserved with arity 1 but used with the rest variables as further arguments
+        chain_name = self.domain_predicates.chain_pred(
+            AnnotatedPredicate(self.domain_predicates.domain_predicate(new_predicate), (0,)),
+            0,
+            agg.atom.function == AggregateFunction.Max,
+        ).name
+        if rest_vars_sorted and Predicate(chain_name, len(rest_vars_sorted) + 1) in self.unique_names.predicates:
+            log.info(f"Cannot translate {loc2str(agg.location)} as {chain_name} is already in use.")
+            return [rule]
+        self.unique_names.predicates.add(Predicate(chain_name, len(rest_vars_sorted) + 1))
         self.unique_names.predicates.add(new_predicate)
         ret = self._create_aggregate_replacement(agg, elem, rest_vars_sorted, new_predicate, lits_with_vars)
 
